@@ -127,7 +127,7 @@ def parseWOps (seed : Nat) : List String → Nat → Option (List WOp)
       let n ← (t.drop 1).toNat?
       let r ← parseWOps seed rest (pos + n)
       if t.startsWith "m" then pure (.malloc (genBytes seed pos n) :: r)
-      else if t.startsWith "w" then pure (.writeBinary (genBytes seed pos n) :: r)
+      else if t.startsWith "w" || t.startsWith "W" then pure (.writeBinary (genBytes seed pos n) :: r)   -- "W": slice of a shared array
       else none
 
 def woutTok : WOp → WOut → String
